@@ -25,9 +25,10 @@ fn random_trace(out: &mut Out, rng: &mut Rng, fl: Fl, big: bool, nsteps: usize, 
     let now0 = *rng.pick(&[0u32, 1, 7, 1000]);
     let min_ttl = *rng.pick(&[1u32, 1, 16]);
     let max_ttl = *rng.pick(&[50u32, 1000, 6_312_000]);
-    let mode = rng.below(3) as u32;
-    let sample = if big { Some(if out.cfg.thorough { 120 } else { 30 }) } else { None };
+    let mode = if desc == "outside-quantifier" { 3 } else { rng.below(3) as u32 };
+    let sample = if big { Some(if out.cfg.thorough { 200 } else { 40 }) } else { None };
     let mut w = World::new(fl, naddr, now0, min_ttl, max_ttl, sample);
+    if big { w.light_appr = true; }
     let p = profile(fl, mode, big, rng);
     // start with something to work on
     let first = match fl { Fl::Cons => Call::BatchMint(0, *rng.pick(&p.batches)), _ => if mode == 1 { Call::MintId(0, EXPLICIT_BASE) } else { Call::MintSeq(0) } };
@@ -36,13 +37,16 @@ fn random_trace(out: &mut Out, rng: &mut Rng, fl: Fl, big: bool, nsteps: usize, 
         let c = w.gen_call(rng, &p);
         w.step(out, rng, &c);
     }
+    out.label(&format!("family/{}", desc));
     w.flush(out, desc);
 }
 
-/// run a fixed list of calls (directed scenario)
+/// run a fixed list of calls (directed scenario); every scenario has its own coverage label
 fn scenario(out: &mut Out, rng: &mut Rng, fl: Fl, sample: Option<u32>, desc: &str, calls: &[Call]) {
     let mut w = World::new(fl, 4, 10, 1, 1000, sample);
+    if desc.ends_with("-full") || sample.is_some() { w.light_appr = true; }
     for c in calls { w.step(out, rng, c); }
+    out.label(&format!("scenario/{}/{}", fl.tag(), desc));
     w.flush(out, desc);
 }
 
@@ -62,6 +66,21 @@ fn directed(out: &mut Out, rng: &mut Rng) {
     // consecutive: a maximal batch that is not bucket aligned spans 11 buckets; its first (partial) bucket is queried
     // before anything planted a marker in between
     scenario(out, rng, Fl::Cons, Some(20), "unaligned-max-batch", &[Call::BatchMint(0, 1), Call::BatchMint(1, max_batch()), tr(1, 2, 5), bu(1, ib + 1), Call::BatchMint(2, max_batch() - 7), tr(2, 3, max_batch() + 2), tr(1, 3, max_batch())]);
+    // the bucket edge once more with EVERY id 0 .. next_id+2 queried after every call (full mode: literal counting of
+    // owner_of answers against balances across the bucket boundary)
+    scenario(out, rng, Fl::Cons, None, "bucket-edge-full", &[Call::BatchMint(0, ib - 10), Call::BatchMint(1, 20), tr(1, 2, ib), tr(1, 3, ib - 1), bu(0, ib - 11), bu(2, ib), tr(0, 3, 31), tr(1, 1, ib + 1)]);
+    // explicit-only contracts: id 0, ids up to u32::MAX, burn and re-mint
+    for fl in [Fl::Base, Fl::Enum] {
+        scenario(out, rng, fl, None, "explicit-extremes", &[Call::MintId(0, 0), Call::MintId(1, u32::MAX), Call::MintId(0, u32::MAX - 1), Call::MintId(2, 1), tr(1, 0, u32::MAX), bu(0, 0), Call::MintId(1, 0), bu(0, u32::MAX - 1), tr(2, 2, 1), Call::MintId(2, u32::MAX - 1)]);
+        // an explicitly minted and burned id is met by the sequential counter; a sequentially issued and burned id is
+        // minted explicitly again (both in scope: the id does not exist at that moment)
+        scenario(out, rng, fl, None, "burned-ids-reissued", &[Call::MintId(0, 1), bu(0, 1), Call::MintSeq(1), Call::MintSeq(1), Call::MintSeq(2), bu(1, 0), Call::MintId(0, 0), tr(0, 1, 0), bu(2, 2), Call::MintId(2, 2)]);
+        // OUTSIDE the quantifier (documented caveat: uniqueness of explicit ids is the integrator's business): the counter
+        // meets a live explicit id; an explicit mint onto an existing id.  Compared with the model (diff); the monitor
+        // stops judging at the offending mint.
+        scenario(out, rng, fl, None, "outside-mixing-mint-strategies", &[Call::MintId(0, 1), Call::MintSeq(1), Call::MintSeq(1), tr(1, 2, 1), bu(0, 1), Call::MintSeq(0), bu(1, 0)]);
+        scenario(out, rng, fl, None, "outside-remint-existing-id", &[Call::MintSeq(0), Call::MintSeq(0), Call::MintId(1, 0), tr(1, 2, 0), tr(0, 2, 0), bu(2, 0), Call::MintId(2, 1), bu(0, 1), bu(2, 1)]);
+    }
     // enumerable: swap-and-pop in every position
     scenario(out, rng, Fl::Enum, None, "swap-pop", &[Call::MintSeq(0), Call::MintSeq(0), Call::MintSeq(0), Call::MintSeq(1), Call::MintSeq(0), bu(0, 1), tr(0, 1, 0), tr(0, 0, 2), bu(1, 3), tr(1, 0, 0), bu(0, 4), bu(0, 0), bu(0, 2), Call::MintSeq(2), Call::MintId(2, EXPLICIT_BASE), bu(2, 5), tr(2, 2, EXPLICIT_BASE), bu(2, EXPLICIT_BASE)]);
     // enumerable: the *_from paths run by an operator / approved account that is not the owner, holding 0, 1 or 2
@@ -112,7 +131,11 @@ fn main() {
         let fl = match i % 3 { 0 => Fl::Base, 1 => Fl::Enum, _ => Fl::Cons };
         random_trace(&mut out, &mut rng, fl, false, nsteps, "random");
     }
-    let nbig = if thorough { 60 * scale } else { 14 * scale };
+    // outside the quantifier: random histories whose explicit ids collide with the counter and with existing ids
+    for i in 0..(if thorough { 60 * scale } else { 8 * scale }) {
+        random_trace(&mut out, &mut rng, if i % 2 == 0 { Fl::Base } else { Fl::Enum }, false, nsteps, "outside-quantifier");
+    }
+    let nbig = if thorough { 60 * scale } else { 12 * scale };
     for _ in 0..nbig { random_trace(&mut out, &mut rng, Fl::Cons, true, if thorough { 60 } else { 30 }, "random-big-batches"); }
     out.finish();
 }
